@@ -290,7 +290,8 @@ def check_optimal(O, inst, sol, cfg, status='optimal'):
             O.bad('optimal:z-outside-cone', 'z outside the cone (margin %.3g)' % o['tz'], sub)
         gscale = o['ns'] * o['nz'] if N else 0.0
         at = opts['abstol'] * INFL + RECOMP_ABS * max(1.0, gscale)
-        if not (gap <= at or (relgap is not None and relgap <= opts['reltol'] * INFL + 1e-9)):
+        cs_ = max(1.0, pn * o['nx'] ** 2 + R.nrm2(inst['q']) * o['nx']) + gscale + o['nz'] * o['resz0']
+        if not (gap <= at or solve.rel_ok(gap, o['pcost'], o['dcost'], opts['reltol'] * INFL + 1e-9, 1e-12 * cs_)):
             O.bad('optimal:gap', 'gap %.3g > abstol %.3g and relative gap %r > reltol %.3g'
                   % (gap, opts['abstol'], relgap, opts['reltol']), sub)
     gscale = o['ns'] * o['nz'] if N else 0.0
